@@ -444,7 +444,7 @@ pub fn gen(tier: Tier, r: &mut Rng, emit: &mut dyn FnMut(String)) {
     let hist_len = if quick { 200 } else { 2000 };
     let probe_cap = if quick { 120 } else { 100_000 };
     // 1. the boundary lengths × every sequence class: probes + one history each
-    let rounds = if quick { 1 } else { 6 };
+    let rounds = if quick { 1 } else { 3 };
     for _ in 0..rounds {
         for &n in &LENGTHS {
             for kind in 0..8u64 {
@@ -460,7 +460,7 @@ pub fn gen(tier: Tier, r: &mut Rng, emit: &mut dyn FnMut(String)) {
         }
     }
     // 2. many small/medium sequences: all probes + histories of varying length
-    let small = if quick { 450 } else { 40_000 };
+    let small = if quick { 450 } else { 12_000 };
     for j in 0..small {
         let n = match r.below(10) {
             0 => r.usize_below(4),
